@@ -4,7 +4,7 @@ The rules follow paths and match idioms; a maintainer can write the same behavio
 every rule every spelling, each spelling below is rewritten to ONE form.  Every rewrite is an equivalence of Python
 semantics (same operations, same order, same exceptions); nothing is executed.  The passes, in order:
 
-  AUG      x = x + c                      ->  x += c                                   (also `-`)
+  AUG      x = x + c                      ->  x += c                     (also `-`, `*`; c a numeric constant: no aliasing question)
   SUPPRESS with suppress(E...): B         ->  try: B  except (E...): pass              (contextlib.suppress)
   LOCK     X.acquire(); try: B finally: X.release()   ->   with X: B                   (same expression X, no arguments)
   WALRUS   while <test using (n := E) once, evaluated first>: B
@@ -111,7 +111,8 @@ class Canon(ast.NodeTransformer):
     # ------------------------------------------------------------------ statements
     def visit_Assign(self, node):
         self.generic_visit(node)
-        if _on("AUG") and len(node.targets) == 1 and isinstance(node.value, ast.BinOp) and isinstance(node.value.op, (ast.Add, ast.Sub)) \
+        if _on("AUG") and len(node.targets) == 1 and isinstance(node.value, ast.BinOp) and isinstance(node.value.op, (ast.Add, ast.Sub, ast.Mult)) \
+                and isinstance(node.value.right, ast.Constant) and isinstance(node.value.right.value, (int, float)) and not isinstance(node.value.right.value, bool) \
                 and isinstance(node.targets[0], (ast.Name, ast.Attribute, ast.Subscript)) \
                 and _dump(_as_load(node.targets[0])) == _dump(node.value.left):
             _hit("AUG")
